@@ -219,11 +219,17 @@ class Run:
         self.counters["scripts_generated"] = len(paths)
         return paths
 
-    def miri(self, paths):
+    def miri(self, paths, enabled):
+        """Shard 0 runs the full interpreter (AMitems included; alignment checking is switched off when the
+        unaligned_items probe already failed, so that Miri reports what lies behind it); the other shards run
+        with C36_MIRI_NO_ITEMS=1, i.e. everything except AMitems-based calls, under strict flags."""
         jobs = []
         with cf.ThreadPoolExecutor(max_workers=8) as ex:
-            for p in paths:
-                env = {"MIRIFLAGS": "-Zmiri-disable-isolation", "C36_SCRIPT": p,
+            for i, p in enumerate(paths):
+                flags = "-Zmiri-disable-isolation"
+                if i == 0 and not enabled.get("unaligned_items"):
+                    flags += " -Zmiri-disable-alignment-check"
+                env = {"MIRIFLAGS": flags, "C36_SCRIPT": p, "C36_MIRI_NO_ITEMS": "0" if i == 0 else "1",
                        "CARGO_TARGET_DIR": OUT + "/target-miri", "CARGO_NET_OFFLINE": "true"}
                 jobs.append((p, ex.submit(sh, ["cargo", "+nightly", "miri", "run", "--offline", "--manifest-path",
                                                CAPI + "/amc_miri/Cargo.toml", "-q"], env, 1500)))
@@ -238,9 +244,12 @@ class Run:
                     if m:
                         loc = re.search(r"--> ([^\n:]+):\d+", err[m.end():])
                         f = os.path.basename(loc.group(1)) if loc else "?"
-                        self.viol.append(("c36|miri|%s|%s" % (f, norm(m.group(1))), "Miri: Undefined Behavior: " + m.group(1), p))
+                        msg = re.sub(r"\(0x[0-9a-f]+\[[a-z0-9]+\][^)]*\)", "", m.group(1))
+                        self.viol.append(("c36|miri|%s|%s" % (f, norm(msg)), "Miri: Undefined Behavior: " + m.group(1), p))
                     elif "memory leaked" in err:
                         self.viol.append(("c36|miri|leak", "Miri: memory leaked", p))
+                    elif "panicked at" in err:
+                        self.counters["both_panicked"] += 1   # a panic of the library itself (not a C36 matter)
                     else:
                         self.inconc.append("miri failed (rc=%s) on %s: %s" % (rc, p, err.strip()[-300:]))
 
@@ -263,7 +272,7 @@ class Run:
                     open(p, "w").write(out)
                     mp.append(p)
                     self.nontrivial_of(p)
-            self.miri(mp)
+            self.miri(mp, enabled)
         for p in paths[:2]:
             ls = [l for l in open(p).read().splitlines() if not l.startswith("#")]
             self.samples.append({"script": os.path.basename(p), "ops": len(ls),
